@@ -409,3 +409,87 @@ def unit_reader_rows():
                                 "the pre-state of counters and checks is arbitrary (covers runs after failed / abandoned / unclosed earlier runs)"]}
     return ProofUnit("validio.Reader.rows", "Reader.rows: header/limit window, three error modes, counters, reset-first protocol (mode, header, limit, rows, verdicts all symbolic)",
                      ["C04", "C05", "C06", "C07", "C08", "C20"], make, RowsOracle())
+
+
+# =====================================================================================================================
+# BaseValidator.close : end-of-data verdicts in declaration order, cleanup for every check even if a verdict raised (C05 C20)
+# =====================================================================================================================
+def m_check_at_end(ex, st, recv, args, kw):
+    cidx = ex.absfun_s("check_index_of", [sort_of(CHECK)], z3.IntSort())(recv.z); g = st.ghost
+    ex.obligations.append(Obligation("protocol/check_at_end-once-per-check-in-declaration-order-before-any-cleanup", st.pc, z3.And(G(st, "ends_done") == cidx, G(st, "cleanups_done") == 0), "protocol", props=["C20", "C05"]))
+    g["ends_done"] = Sym(INT, cidx + 1)
+    okz = ex.absfun_s("end_ok", [sort_of(CHECK)], z3.BoolSort())(recv.z)
+    for s2, b in ex.fork(st, Sym(BOOL, okz)):
+        if b: yield s2, None
+        else:
+            m = fresh(STR, "msg")[0]; s2.pc.append(z3.Length(m.z) > 0)
+            yield from raise_new(ex, s2, "CheckError", [m, args[0]])
+
+
+def m_cleanup(ex, st, recv, args, kw):
+    cidx = ex.absfun_s("check_index_of", [sort_of(CHECK)], z3.IntSort())(recv.z)
+    ex.obligations.append(Obligation("protocol/cleanup-each-check-once-in-order", st.pc, G(st, "cleanups_done") == cidx, "protocol", props=["C20"]))
+    st.ghost["cleanups_done"] = Sym(INT, cidx + 1); yield st, None
+
+
+def setup_close(ex, st):
+    m = fresh(INT, "m")[0]; st.pc.append(m.z >= 0)
+    names, c1 = fresh(UFList(STR), "check_names"); checks, c2 = fresh(UFList(CHECK), "checks"); st.pc.extend(c1 + c2)
+    st.pc.extend([names.length == m.z, checks.length == m.z])
+    check_of = z3.Function("check_of", z3.StringSort(), sort_of(CHECK)); cio = ex.absfun_s("check_index_of", [sort_of(CHECK)], z3.IntSort()); i = z3.Int("i")
+    st.pc.append(z3.ForAll([i], z3.Implies(z3.And(i >= 0, i < m.z), z3.And(check_of(names.at(i)) == checks.at(i), cio(checks.at(i)) == i))))
+    loc = Ref("Location"); st.heap[loc.oid] = {"file_path": "<io>", "_line": fresh(INT, "line")[0], "_column": 0, "_cell": 0, "_sheet": 0, "_has_column": False, "_has_cell": True, "_has_sheet": False}
+    cid = Ref("Cid"); st.heap[cid.oid] = {"_check_names": names, "_check_name_to_check_map": UFMap(STR, CHECK, check_of, values=checks)}
+    closed0 = fresh(BOOL, "closed0")[0]
+    self = Ref("Reader"); st.heap[self.oid] = {"_cid": cid, "_location": loc, "_is_closed": closed0}
+    st.frames[-1].env["self"] = self
+    st.ghost.update({"m": m, "ends_done": 0, "cleanups_done": 0, "closed0": closed0, "this": self, "checksv": checks})
+
+
+def sf_end_ok(ex, st, j):
+    return Sym(BOOL, ex.absfun_s("end_ok", [sort_of(CHECK)], z3.BoolSort())(st.ghost["checksv"].at(lift(j).z)))
+
+
+def close_contract():
+    return Contract("validio.BaseValidator.close", setup_close,
+        returns=[Clause("implies(closed0, ends_done == 0 and cleanups_done == 0)", "second-close-does-nothing", props=["C20"]),
+                 Clause("implies(not closed0, ends_done == m and cleanups_done == m and forall(j, 0 <= j and j < m, end_ok(j)))", "every-verdict-asked-once-in-order-then-every-check-cleaned-up", props=["C20", "C05"]),
+                 Clause("this._is_closed == True", "marked-closed", props=["C20"])],
+        raises={"CheckError": [Clause("not closed0 and ends_done >= 1 and not end_ok(ends_done - 1) and forall(j, 0 <= j and j < ends_done - 1, end_ok(j))", "raised-by-the-first-failing-end-verdict", props=["C20", "C05"]),
+                               Clause("cleanups_done == m", "cleanup-runs-for-every-check-even-if-a-verdict-raised", props=["C20"])]},
+        loops={0: LoopSpec(invariants=["ends_done == _i0", "cleanups_done == 0", "forall(j, 0 <= j and j < _i0, end_ok(j))"], havoc={"check_name": STR}, ghost_havoc={"ends_done": INT}),
+               1: LoopSpec(invariants=["cleanups_done == _i1"], havoc={"check": CHECK}, ghost_havoc={"cleanups_done": INT})},
+        expect=["return", "CheckError"], n_loops=2, modifies=["Reader._is_closed"])
+
+
+class CloseOracle(Oracle):
+    quick_cases = 200
+    bound = "0-3 recording stub checks, each end verdict passing or failing, first and second close"
+    def cases(self, ctx):
+        for n in range(0, 4):
+            for fails in itertools.product((False, True), repeat=n):
+                yield list(fails)
+    def check(self, fails):
+        from cutplace import validio, errors
+        log = []
+        checks = [_StubCheck("c%d" % i, set(), log, fail_at_end=f) for i, f in enumerate(fails)]
+        v = validio.BaseValidator(_StubCid([_StubField("f0", {"a"}, log)], checks)); v._location = errors.Location("<io>", has_cell=True)
+        try: v.close(); out = "return"
+        except errors.CheckError: out = "CheckError"
+        except Exception as e: return {"expected": "return or CheckError", "observed": repr(e)}
+        first = next((i for i, f in enumerate(fails) if f), None)
+        exp_log = [("check_at_end", "c%d" % i) for i in range(len(fails) if first is None else first + 1)] + [("cleanup", "c%d" % i) for i in range(len(fails))]
+        if log != exp_log: return {"expected": exp_log, "observed": log}
+        if out != ("return" if first is None else "CheckError"): return {"expected": "return" if first is None else "CheckError", "observed": out}
+        if first is None:
+            n0 = len(log); v.close()
+            if len(log) != n0: return {"expected": "second close produces no event", "observed": log[n0:]}
+        return None
+    def describe(self, c): return {"end_verdict_fails": c, "call": "BaseValidator(stub cid).close() [twice when the first succeeds]"}
+
+
+def unit_close():
+    def make(ctx):
+        return {"contract": close_contract(), "callees": {"abs:Check.check_at_end": AbsContract(m_check_at_end), "abs:Check.cleanup": AbsContract(m_cleanup)}, "spec_functions": {"end_ok": sf_end_ok},
+                "assumptions": ["checks are abstract plug-ins: check_at_end raises only CheckError (verdict end_ok), cleanup does not raise; check_map.values() lists the checks in declaration order (dict insertion order, Python >= 3.7)"]}
+    return ProofUnit("validio.BaseValidator.close", "close(): end verdicts once in declaration order, cleanup for every check (finally), idempotent after success", ["C20", "C05", "C08"], make, CloseOracle())
